@@ -7,8 +7,8 @@ from harness import core, acclib
 
 ID = 'C05'
 MODULE = 'Gpv.Props.C05'
-MODULES = ['Gpv.Props.C05', 'Gpv.Props.C05Float', 'Gpv.Props.C05FloatVar', 'Gpv.Props.C05FloatCov']
-THEOREMS = core.theorems('C05', 'C05Float', 'C05FloatVar', 'C05FloatCov')
+MODULES = ['Gpv.Props.C05', 'Gpv.Props.C05Float', 'Gpv.Props.C05FloatVar', 'Gpv.Props.C05FloatCov', 'Gpv.Props.C05FloatMatrix']
+THEOREMS = core.theorems('C05', 'C05Float', 'C05FloatVar', 'C05FloatCov', 'C05FloatMatrix')
 RULE = ('random accumulator kind x shape (0-d..3-d) x length x value family (small ints, dyadics, mixed int/float, '
         'python numbers and ndarrays); read after every push; model run in exact rationals, implementation in floats, '
         'compared with relative tolerance 1e-9; independent oracle = exact batch statistic in Fractions. '
